@@ -14,7 +14,7 @@ func execC03(c Case) string {
 		for _, t := range splitOr(a[0], ",") {
 			vals = append(vals, atoi(t))
 		}
-		return itoa(bech32.VerifPolymod(vals))
+		return itoa(hk_bech32_Polymod(vals))
 	case "bdec", "bsub":
 		h, d, err := bech32.Decode(string(unhx(a[len(a)-1])))
 		if err != nil {
